@@ -633,7 +633,11 @@ def outcome_under(stmts, val: dict):
 
 
 def eval3(e, atom: Callable[[ast.AST], Optional[bool]]):
-    """three-valued truth of a test; `atom` decides the leaves (None = unknown); and/or short-circuit on a deciding operand"""
+    """three-valued truth of a test; `atom` decides the leaves (None = unknown) - and may decide a compound test as a whole; and/or short-circuit on a deciding operand"""
+    if isinstance(e, (ast.BoolOp, ast.UnaryOp, ast.IfExp)):
+        whole = atom(e)
+        if whole is not None:
+            return whole
     if isinstance(e, ast.BoolOp):
         vs = [eval3(v, atom) for v in e.values]
         if isinstance(e.op, ast.And):
